@@ -64,4 +64,9 @@ theorem no_other_module_state :
     (Gen.globalRebinds.all (fun g => Ref.benignRebinds.contains g)
       && Gen.crossModuleWrites.all (fun g => Ref.benignCrossWrites.contains g)) = true := by decide
 
+/-- Tie A: the package changes no setting of the interpreter or the process (recursion limit, switch interval, trace
+hooks, warning filters, locale, decimal context, gc, environment, working directory, …): a call leaves nothing of that
+kind behind for the next one -/
+theorem no_process_settings_written : Gen.processSettingCalls.isEmpty = true := by decide
+
 end MoSql.Props.C15
